@@ -68,6 +68,8 @@ RealT(lo, hi) == [k |-> "real", lo |-> NV(lo, 1), hi |-> NV(hi, 1)]
 FluentR(name, t, def) == [name |-> name, type |-> t, sig |-> <<>>, default |-> def]
 IncR(f, n) == [kind |-> "inc", f |-> [name |-> f, args |-> <<>>], v |-> EC(n, 1), c |-> ETrue, forall |-> <<>>]
 NoMetric == [kind |-> "none", costs |-> <<>>, default |-> ENone, expr |-> ENone, goals |-> <<>>]
+\* the constant the action adds: 1, or a value of the fluent's type when 1 is none (UP type-checks it)
+Step(r) == IF r[1] <= 1 /\ 1 <= r[2] THEN 1 ELSE r[2]
 \* x in xr, y in yr (both increased by the action: non-static), s static with value sv, q in qr
 Prob(xr, yr, qr, st, sv) ==
    [name |-> "c17", types |-> <<>>, objects |-> <<>>,
@@ -77,7 +79,7 @@ Prob(xr, yr, qr, st, sv) ==
     init |-> <<>>,
     actions |-> <<[name |-> "a", kind |-> "inst",
                    params |-> <<[name |-> "q", type |-> IntT(qr[1], qr[2])]>>,
-                   pre |-> <<>>, effects |-> <<IncR("x", 1), IncR("y", 1)>>,
+                   pre |-> <<>>, effects |-> <<IncR("x", Step(xr)), IncR("y", Step(yr))>>,
                    conds |-> <<>>, dur |-> NONE, sim |-> FALSE]>>,
     goals |-> <<>>, invariants |-> <<>>, traj |-> <<>>, timed_goals |-> <<>>, timed_effects |-> <<>>,
     metric |-> NoMetric, nmetrics |-> 0, ifuns |-> <<>>]
